@@ -65,6 +65,8 @@ class Terminologies(dict):
     """
     loading = {}
     reload_cache = False
+    # Guards the loading table: loader threads load included files themselves.
+    _lock = threading.RLock()
 
     def load(self, url):
         """
@@ -73,15 +75,47 @@ class Terminologies(dict):
         :param url: location of an odML XML file.
         :return: The odML document loaded from url.
         """
-        if url in self:
-            return self[url]
+        with self._lock:
+            if url in self:
+                return self[url]
 
-        if url in self.loading:
-            self.loading[url].join()
-            self.loading.pop(url, None)
-            return self.load(url)
+            # Every file is loaded by exactly one loader thread, whether it was
+            # requested via load or deferred_load; wait for that one.
+            thread = self.loading.get(url)
+            started_here = thread is None
+            if started_here:
+                thread = self._start_loading(url)
 
-        return self._load(url)
+        thread.join()
+
+        with self._lock:
+            if started_here or url in self:
+                return self.get(url)
+
+        # The result of the loader we waited for is gone (refresh); load again.
+        return self.load(url)
+
+    def _start_loading(self, url):
+        """
+        Registers and starts the loader thread for a URL; requires the lock.
+        The thread is started before the lock is released, so that no one
+        can find a registered thread that is not running yet.
+        """
+        thread = threading.Thread(target=self._load_and_unregister, args=(url,))
+        self.loading[url] = thread
+        thread.start()
+        return thread
+
+    def _load_and_unregister(self, url):
+        """
+        Body of a loader thread: the loading table only holds loaders that
+        are still at work.
+        """
+        try:
+            self._load(url)
+        finally:
+            with self._lock:
+                self.loading.pop(url, None)
 
     def _load(self, url):
         """
@@ -117,10 +151,10 @@ class Terminologies(dict):
 
         :param url: location of an odML XML file.
         """
-        if url in self or url in self.loading:
-            return
-        self.loading[url] = threading.Thread(target=self._load, args=(url,))
-        self.loading[url].start()
+        with self._lock:
+            if url in self or url in self.loading:
+                return
+            self._start_loading(url)
 
     def refresh(self, url):
         """
